@@ -154,7 +154,26 @@ def dealerProcessResponse (g : P) (dl : Dealer S P) (r : Response S P) :
       | none => (dl', .ok none)          -- unreachable: verifyResponse checked the index
       | some deal => (dl', .ok (some (r.index, deal)))
 
-/-- `DistKeyGenerator.ProcessResponse`: new state, error or the justification it would broadcast -/
+/-- the tail of `ProcessResponse` for a response about the member's OWN deal (`resp.Index == d.index`),
+after the own verifier (now `v1`, aggregator `a'`) accepted it: `d.dealer.ProcessResponse`, and for a
+complaint `v.ProcessJustification(j)` on the own verifier.  The response object is shared with the
+dealer's aggregator, so an accepted justification turns both stored copies into approvals. -/
+def ownResponse (g : P) (d1 : Gen S P) (v1 : Verifier S P) (a' : Agg S P) (r : Response S P) :
+    Gen S P × Except Err (Option (DkgJust S P)) :=
+  match dealerProcessResponse g d1.dealer r with
+  | (dl1, .error err) => ({ d1 with dealer := dl1 }, .error (.vss err))
+  | (dl1, .ok none) => ({ d1 with dealer := dl1 }, .ok none)
+  | (dl1, .ok (some (jidx, deal))) =>
+    match verifyJustification g a' jidx deal with
+    | (a1, some err) =>
+      (setVerifier { d1 with dealer := dl1 } d1.index { v1 with agg := some a1 }, .error (.vss err))
+    | (a1, none) =>
+      let dl2 := { dl1 with agg := { dl1.agg with responses := approveStored dl1.agg.responses jidx } }
+      ({ setVerifier { d1 with dealer := dl1 } d1.index { v1 with agg := some a1 } with dealer := dl2 },
+        .ok (some { index := d1.index, jidx := jidx, deal := deal }))
+
+/-- `DistKeyGenerator.ProcessResponse`: new state, error or the justification it would broadcast
+(`v.ProcessResponse` = nil-aggregator check + `verifyResponse` is written out) -/
 def processResponse (g : P) (d : Gen S P) (m : DkgResp S P) : Gen S P × Except Err (Option (DkgJust S P)) :=
   match m.resp with
   | none => (d, .error .respNil)
@@ -162,31 +181,16 @@ def processResponse (g : P) (d : Gen S P) (m : DkgResp S P) : Gen S P × Except 
     match getVerifier d m.index with
     | none => (d, .error .respNoDeal)
     | some v =>
-      let (v1, e) := v.processResponse g r
-      match e with
-      | some err => (d, .error (.vss err))
-      | none =>
-        let d1 := setVerifier d m.index v1
-        if m.index ≠ d.index then (d1, .ok none)
-        else
-          let (dl1, jr) := dealerProcessResponse g d1.dealer r
-          let d2 := { d1 with dealer := dl1 }
-          match jr with
-          | .error err => (d2, .error (.vss err))
-          | .ok none => (d2, .ok none)
-          | .ok (some (jidx, deal)) =>
-            -- `v.ProcessJustification(j)` on the own verifier; the response object is shared with the
-            -- dealer's aggregator, so an accepted justification turns both stored copies into approvals
-            match v1.agg with
-            | none => (d2, .ok none)     -- unreachable: processResponse succeeded on it
-            | some a =>
-              let (a1, je) := verifyJustification g a jidx deal
-              let d3 := setVerifier d2 m.index { v1 with agg := some a1 }
-              match je with
-              | some err => (d3, .error (.vss err))
-              | none =>
-                let dl2 := { dl1 with agg := { dl1.agg with responses := approveStored dl1.agg.responses jidx } }
-                ({ d3 with dealer := dl2 }, .ok (some { index := d.index, jidx := jidx, deal := deal }))
+      match v.agg with
+      | none => (d, .error (.vss .noDealBeforeResp))
+      | some a =>
+        match verifyResponse g a r with
+        | .error err => (d, .error (.vss err))
+        | .ok a' =>
+          let v1 : Verifier S P := { v with agg := some a' }
+          let d1 := setVerifier d m.index v1
+          if m.index ≠ d.index then (d1, .ok none)
+          else ownResponse g d1 v1 a' r
 
 /-- `DistKeyGenerator.ProcessJustification` -/
 def processJustification (g : P) (d : Gen S P) (j : DkgJust S P) : Gen S P × Option Err :=
